@@ -6,6 +6,7 @@ import (
 	"math/rand"
 	"reflect"
 	"strings"
+	"sync"
 
 	"free5gclib/nas"
 
@@ -214,11 +215,15 @@ type ownIE struct {
 	wide bool // two length octets (TLV-E)
 }
 
-var ownIEMemo map[string]ownIE
+var (
+	ownIEMemo map[string]ownIE
+	ownIEOnce sync.Once
+)
 
-// ownIEs: IEI and length format of every optional length-carrying member, by member name.
+// ownIEs: IEI and length format of every optional length-carrying member, by member name (built once: the generator is
+// also used from the goroutines of the C20 workload).
 func ownIEs() map[string]ownIE {
-	if ownIEMemo == nil {
+	ownIEOnce.Do(func() {
 		ownIEMemo = map[string]ownIE{}
 		ds, _ := nasdesc.Load()
 		for i := range ds {
@@ -230,7 +235,7 @@ func ownIEs() map[string]ownIE {
 				}
 			}
 		}
-	}
+	})
 	return ownIEMemo
 }
 
